@@ -155,7 +155,7 @@ func runDsyev(t *vlib.T, n int, p prof, f family, uplo blas.Uplo, ldx int, lw st
 			if strings.Contains(lastStack, "dlascl.go") && strings.Contains(lastStack, "dsterf.go") {
 				finding(t, "dsterf-dlascl-lda", "Dsyev(jobz=N) on a matrix of norm %.3g panics in Dsterf's rescaling: %s %s", nrm*f.scale, msg, lastStack)
 			} else {
-				t.FailClass("unexpected-panic", "Dsyev panicked: %s %s [%s]", msg, lastStack, ctx)
+				failCall(t, "Dsyev "+ctx, msg)
 			}
 			continue
 		}
@@ -386,7 +386,10 @@ func runDsytrd(t *vlib.T, n int, p prof, f family, uplo blas.Uplo, ldx int, lw s
 			zd, ldz = z.d, lda
 			wk = poisoned(max(1, 2*n-2))
 		}
-		ok := impl.Dsteqr(compz, n, dd, ee, zd, ldz, wk)
+		var ok bool
+		if !call(t, "Dsteqr "+ctx, func() { ok = impl.Dsteqr(compz, n, dd, ee, zd, ldz, wk) }) {
+			return
+		}
 		if !ok {
 			if p.stock {
 				t.Failf("Dsteqr did not converge with stock parameters [%s]", ctx)
@@ -414,7 +417,11 @@ func runDsytrd(t *vlib.T, n int, p prof, f family, uplo blas.Uplo, ldx int, lw s
 	}
 	{
 		dd, ee := append([]float64(nil), d...), append([]float64(nil), e...)
-		if ok := impl.Dsterf(n, dd, ee); !ok {
+		var ok bool
+		if !call(t, "Dsterf", func() { ok = impl.Dsterf(n, dd, ee) }) {
+			return
+		}
+		if !ok {
 			if p.stock {
 				t.Failf("Dsterf did not converge with stock parameters")
 			}
